@@ -1572,6 +1572,14 @@ func runC13(res *hx.Result, rng *hx.Rng, tier string, outdir string) {
 		hx.Bool(on15), hx.Bool(on16), hx.Bool(on17), hx.Bool(dup))
 	cf := hx.NewCases(outdir, "C13", "From QV Require Import Signals C13Run.", "mismatches g cases", res, "cases", "kcase")
 	cf.Extra = append(cf.Extra, cfg)
+	if strings.HasPrefix(os.Getenv("QV_C13_HEALTH"), "only:") { // campaign: QV_C13_HEALTH=only:N random sequences with connections in bad health, nothing else
+		for _, w := range []*c13world{w17, w16, w15} {
+			w.close()
+		}
+		cf.Flush()
+		c13runRaw(res, rng, tier, outdir, cfg)
+		return
+	}
 
 	finish := func(w *c13world, name string) {
 		w.report(res, sw)
